@@ -285,3 +285,8 @@ pub fn generate(seed: u64, tier: &str, out: &mut dyn std::io::Write) {
         writeln!(out, "{}", one_case(&format!("h{}-{}", seed, i), &mut r, max_ops, true)).unwrap();
     }
 }
+
+pub fn one(id: &str, seed: u64, index: u64) -> Option<String> {
+    let hostile = id.starts_with("corpus-h") || id.starts_with('h');
+    Some(one_case(id, &mut Rng::for_case(seed, if hostile { 1016 } else { 16 }, index), 24, hostile))
+}
